@@ -127,6 +127,7 @@ type gen struct {
 	ids    int
 	unused int
 	budget int
+	stack  []*Node // ancestors of the element being generated
 }
 
 // chance is true with probability num/den; it shrinks towards false.
@@ -289,9 +290,13 @@ func (g *gen) declare(n *Node, outer scope, depth int, prefix, uri string) bool 
 		return false
 	}
 	if uri != "" && !g.o.AliasPrefix {
-		for p, u := range cur {
-			if u == uri && p != prefix {
-				return false
+		// look at every declaration on the ancestor path, not only at the bindings in
+		// force: normalize may later remove an unused declaration that hides one
+		for _, e := range append(g.stack[:len(g.stack):len(g.stack)], n) {
+			for _, d := range e.NS {
+				if d.URI == uri && d.Prefix != prefix {
+					return false
+				}
 			}
 		}
 	}
@@ -368,7 +373,7 @@ func (g *gen) choosePrefix(n *Node, outer scope, depth int, wantURI string) stri
 	if wantURI != "" {
 		var cands []string
 		for _, p := range sortedPrefixes(s) {
-			if s[p] == wantURI && (p == "" || g.o.Prefixed) {
+			if s[p] == wantURI && (p == "" || g.o.Prefixed) && !strings.HasPrefix(p, "unused") {
 				cands = append(cands, p)
 			}
 		}
@@ -446,7 +451,11 @@ func (g *gen) genAttrs(n *Node, s scope) {
 			if g.chance(1, 2, "xml-space") {
 				add("xml", "space", g.pick([]string{"preserve", "default"}, "xml-space-v"))
 			} else {
-				add("xml", "lang", g.pick([]string{"en", "en-US", "de", ""}, "xml-lang-v"))
+				langs := []string{"en", "en-US", "de"}
+				if g.o.EmptyAttr {
+					langs = append(langs, "")
+				}
+				add("xml", "lang", g.pick(langs, "xml-lang-v"))
 			}
 		case g.o.IDAttrs && g.chance(1, 6, "idattr"):
 			g.ids++
@@ -475,6 +484,8 @@ func (g *gen) genElement(outer scope, depth int, local string) *Node {
 	g.genAttrs(n, s)
 
 	// children
+	g.stack = append(g.stack, n)
+	defer func() { g.stack = g.stack[:len(g.stack)-1] }()
 	nkids := 0
 	if depth < MaxDepth && g.budget > 0 {
 		max := 4
